@@ -34,7 +34,7 @@ _p("C04", ["shexing", "c20_config", "c08_channels"], ["schemas"],
    "Deductive: exception-freedom (None dereference, missing keys, index range, call shapes, list.remove membership) of the node-kind merge under its "
    "representation invariant, which the constructor is proved to establish; call shapes of shex_graph / profile_graph. Totality of the composed pipeline on "
    "adversarial mixes x configurations x formats: bounded (schemas.py).")
-_p("C05", ["c05_tokens", "c18_state", "instances", "c13_prefix"], ["schemas"],
+_p("C05", ["c05_tokens", "c18_state", "instances"], ["schemas"],
    "Deductive: the label built for a class (build_shapes_name_for_class_uri: '<' + shapes namespace + local name + '>', never raises; for slash namespaces the "
    "local name is exactly the last path segment of the class IRI, so labels are injective on distinct local names; the '#' form is left to the monitor), the choice of the shapes prefix (first free default, proved against a user "
    "dictionary that already uses some of them), shape kinds only for nodes of the instance dictionary (reference closure at the source), and the output buffer "
@@ -71,7 +71,7 @@ _p("C11", ["c11_shacl", "c18_state"], ["schemas"],
 _p("C12", ["filtering", "c20_config", "c06_nt", "shexing"], ["pipeline"],
    "Deductive: the threshold is applied once, on raw candidates (filter contracts with the counting recurrence; >= from the statement), the range check of the "
    "argument, frequency = n/N. Monotonicity over pairs of thresholds on whole runs: " + MON)
-_p("C13", ["shexing", "serializers", "c18_state", "plumbing", "c06_nt", "c13_prefix"], ["pipeline"],
+_p("C13", ["shexing", "serializers", "c18_state", "plumbing", "c06_nt"], ["pipeline"],
    "Deductive: the tuning pipeline rewrites exactly what each switch documents (cardinality after tuning = documented function of the cardinality and "
    "probability before; counts, kinds, properties never written; with every switch off nothing is written; disable_comments touches comments only; a "
    "disjunction keeps property, cardinality and figures). Presentation options and decimals rounding on whole runs: " + MON)
